@@ -2,7 +2,7 @@ import StoneVerif.Lemmas.FeCompileReg
 import StoneVerif.Lemmas.FeNames
 set_option linter.unusedSimpArgs false
 /-!
-Pass 1 of the compile model is the registration pass of C01's name model (`FeNames.register`) on the projection
+Pass 1 of the compileCore model is the registration pass of C01's name model (`FeNames.register`) on the projection
 `toNames`: the same symbols are bound and the same canonical keys are taken, so it succeeds on the same inputs --
 those whose names obey `FeNames.NoClash`.
 -/
@@ -153,6 +153,7 @@ theorem regDecl_sim {st st' ns d x} (hS : Sim st st') (hx : declItem d = some x)
     Agree Sim (regDecl st ns d) (FeNames.addItem st' ns.toList x) := by
   cases d with
   | imp t => simp [declItem] at hx
+  | patch q => simp [declItem] at hx
   | type td =>
     simp only [declItem, Option.some.injEq] at hx
     subst hx
@@ -234,9 +235,8 @@ theorem regDecls_sim {ns} : ∀ {ds : List Decl} {st st'}, Sim st st' →
   | d :: ds, st, st', hS => by
     cases hx : declItem d with
     | none =>
-      cases d <;> simp [declItem] at hx
-      simp only [regDecls, regDecl, List.filterMap_cons, declItem]
-      exact regDecls_sim hS
+      cases d <;> simp [declItem] at hx <;>
+        (simp only [regDecls, regDecl, List.filterMap_cons, declItem]; exact regDecls_sim hS)
     | some x =>
       have h1 := regDecl_sim (ns := ns) hS hx
       simp only [regDecls, List.filterMap_cons, hx, FeNames.addItems]
